@@ -21,8 +21,8 @@ import vlib, syn
 
 LEVEL = "model_checking"
 KNOWN_DEVS = {"Dev_LastLineWithoutNewlineDropped", "Dev_DashHeredocLineNoCallback"}
-SELFTESTS = {"selftest1": "NothingLost", "selftest2": "OneCallbackPerLine", "selftest3": "IncompleteOnlyWhileOpen",
-             "selftest4": "RunBeforeRead"}
+SELFTESTS = {"selftest1": "drop_unterminated", "selftest2": "read_before_callback", "selftest3": "incomplete_when_closed",
+             "selftest4": "partial_delivery"}
 
 
 def cont_lines(r, L):
@@ -52,21 +52,37 @@ def report(ck, part, key, rec):
     ck.violation(key, rec)
 
 
+def seq_key(f):
+    import re
+    # neither the reader mode nor the break position identify the defect
+    d = re.sub(r"^k=\d+: ", "", f["detail"])
+    d = re.sub(r'>"[^"]*" became ".*$', "", d, flags=re.S)     # where it differs, not the differing text
+    return "%s|%s" % (f["kind"], d[:200])
+
+
 def hist_of(v):
     return v["hist"] if isinstance(v["hist"], list) else []
 
 
-def compose(a, b):
+def compose(a, b, bg=False):
     """Two generated programs one after the other are a program too: token sequences and statement
-    lists are concatenated (both renderings end in a separator), valid where both are valid."""
-    return {"ch": a["ch"] + ["+"] + b["ch"], "r": a["r"] + b["r"], "v": [l for l in a["v"] if l in b["v"]], "x": [],
-            "t": {"k": "File", "Stmts": a["t"]["Stmts"] + b["t"]["Stmts"]}}
+    lists are concatenated (both renderings end in a separator), valid where both are valid.
+    bg: the last statement of `a` runs in the background (as in ShSyntax!DStmts: `a <SP> & ...`,
+    Background |-> TRUE) and `b` follows on the same line (`a & b`): a here-document of `a` then has
+    its body after the line that also holds `b`."""
+    ar, at = a["r"], a["t"]["Stmts"]
+    if bg:
+        ar = ar[:-1] + ["<SP>", "&", "<SP>"]
+        at = at[:-1] + [dict(at[-1], Background=True)]
+    return {"ch": a["ch"] + ["+&" if bg else "+"] + b["ch"], "r": ar + b["r"], "v": [l for l in a["v"] if l in b["v"]], "x": [],
+            "t": {"k": "File", "Stmts": at + b["t"]["Stmts"]}}
 
 
-def with_compositions(vecs, tier):
+def with_compositions(vecs, nbfs):
     """The breadth-first bound of ShSyntax reaches a second top-level statement only late, and this
     property is about sequences of statements: every derivation is also paired with a partner
-    (round robin over a few simple programs, alternating order), and a few triples are added."""
+    (round robin over a few simple programs, alternating order), and a few triples are added.
+    Only the breadth-first derivations (the first nbfs) are paired, not the simulated ones."""
     def first(pred):
         return next((v for v in vecs if v["v"] and pred(v)), None)
     partners = [p for p in (first(lambda v: v["ch"] == []), first(lambda v: "<HDOC>" in v["r"]),
@@ -75,18 +91,22 @@ def with_compositions(vecs, tier):
     out = list(vecs)
     if not partners:
         return out
-    for i, v in enumerate(vecs):
+    for i, v in enumerate(vecs[:nbfs]):
         if not v["v"]:
             continue
         p = partners[i % len(partners)]
         c = compose(v, p) if (i // len(partners)) % 2 == 0 else compose(p, v)
         if c["v"]:
             out.append(c)
-        if tier == "thorough" or i % 7 == 0:
+        if i % 7 == 0:
             q = partners[(i + 1) % len(partners)]
             c3 = compose(compose(p, v), q)
             if c3["v"]:
                 out.append(c3)
+        if i % 5 == 0 and v["r"][-1] == "<SEP>" and "Background" not in v["t"]["Stmts"][-1]:
+            cb = compose(v, partners[(i + 2) % len(partners)], bg=True)
+            if cb["v"]:
+                out.append(cb)
     return out
 
 
@@ -117,12 +137,14 @@ def run_models(ck, tier, seed):
 def selftests(ck):
     """The laws of ShInteractive must notice each seeded protocol defect (model sensitivity)."""
     out = {}
-    for cfg, law in SELFTESTS.items():
+    import re
+    for cfg, defect in SELFTESTS.items():
         t = vlib.run_tlc("ShInteractive", "ShInteractive.%s.cfg" % cfg, workers=2, timeout=600)
         ck.add_tlc(t)
-        if t.ok or ("Invariant %s is violated" % law) not in (t.violation or ""):
-            raise vlib.Inconclusive("ShInteractive.%s.cfg: the seeded defect was not caught by %s" % (cfg, law))
-        out[cfg] = law
+        m = re.search(r"Invariant (\w+) is violated", t.violation or "")
+        if t.ok or not m:
+            raise vlib.Inconclusive("ShInteractive.%s.cfg: the seeded defect %s was not caught by any law" % (cfg, defect))
+        out[defect] = m.group(1)
     ck.notes["model_selftests"] = out
 
 
@@ -167,19 +189,19 @@ def trace_record(i, src, t):
 
 # ------------------------------------------------------------------------------------------------ parts
 def is_composed(v):
-    return "+" in v["ch"]
+    return "+" in v["ch"] or "+&" in v["ch"]
 
 
 def part_seq(ck, h, vecs, layouts):
     jobs = []
     for v in vecs:
         if ck.tier == "quick":
-            # StmtsSeq and Parse share the statement loop: quick uses every other layout
-            ls = layouts[::2]
+            # StmtsSeq and Parse share the statement loop: quick uses every third layout
+            ls = layouts[::3]
         else:
-            ls = layouts[:3] if is_composed(v) else layouts
+            ls = layouts[:2] if is_composed(v) else layouts[::2]
         jobs.append({"srcs": [syn.render(v["r"], L) for L in ls], "langs": syn.LANGS, "valid": v["v"], "t": v["t"],
-                     "full": ck.tier == "thorough" and not is_composed(v)})
+                     "full": ck.tier == "thorough" and is_composed(v)})
     if os.environ.get("VERIF_C08_CORRUPT"):
         # development self-test: a corrupted expected tree must be noticed
         for j in jobs[::40]:
@@ -196,7 +218,7 @@ def part_seq(ck, h, vecs, layouts):
             continue
         runs += r["runs"]; spec += r["spec_checked"]
         for f in (r["fails"] or []):
-            key = "%s|%s|%s" % (f["kind"], f["mode"], f["detail"][:160])
+            key = seq_key(f)
             src = j["srcs"][f["item"]]
             rec = {"vector": {"part": "seq", "job": {"srcs": [src], "langs": [f["lang"]], "valid": j["valid"], "t": j["t"], "full": True}}, "impl": f}
             if key not in seen or len(src) < len(seen[key]["vector"]["job"]["srcs"][0]):
@@ -219,7 +241,7 @@ def part_inter(ck, h, vecs, layouts):
                 continue
             src = syn.render(v["r"], L)
             # a consumer stopping at every callback: on two layouts (thorough: of the composed programs)
-            stops = L["name"] in stop_layouts and (ck.tier == "quick" or is_composed(v))
+            stops = (L["name"] == "lines" if ck.tier == "quick" else L["name"] in stop_layouts and is_composed(v))
             items.append({"src": src, "cont": cont_lines(v["r"], L), "stops": stops, "layout": L["name"]})
             if L["name"] in ("oneline", "lines") and src.rstrip("\n") != src:
                 # the same program when the input ends without a final newline
@@ -384,7 +406,7 @@ def run(ck):
         selftests(ck); lap("tlc_selftests")
     layouts = syn.load_layouts()
     nder = len(vecs)
-    vecs = with_compositions(vecs, ck.tier)
+    vecs = with_compositions(vecs, ck.notes.get("derivations_bfs", len(vecs)))
     ck.notes["programs"] = {"derivations": nder, "with_compositions": len(vecs)}
     nseq = part_seq(ck, h, vecs, layouts); lap("seq")
     recs, members = part_inter(ck, h, vecs, layouts); lap("interactive_record")
@@ -413,7 +435,7 @@ def replay(ck, rec):
     if v["part"] == "seq":
         r = vlib.run_harness(h, "seq", [v["job"]])[0]
         for f in (r.get("fails") or []):
-            if "%s|%s|%s" % (f["kind"], f["mode"], f["detail"][:160]) == key:
+            if seq_key(f) == key:
                 ck.violation(key, {"vector": v, "impl": f}); return
         if "panic" in r:
             ck.violation(key, {"vector": v, "impl": r})
